@@ -5,7 +5,7 @@ from props._util import rng_for, run_cases
 
 LEVEL = "other"
 DEDUCTIVE = [{"module": "rnapolis.common", "sidecar": "contracts.common_c",
-              "targets": ["BpSeq.fcfs"]}]
+              "targets": ["BpSeq.__stems_entries", "BpSeq.fcfs"]}]
 TRUSTED = ["z3 5.1.0 / cvc5 1.0.3", "pyvc encoding of Python semantics (DESIGN 2.3)", "CPython 3.12"]
 ASSUMPTIONS = []
 EXPLANATION = "see DESIGN.md 4/C01"
